@@ -29,6 +29,25 @@ let query_s s = match s with
   | "p6" | "pu" | "pn" -> Some 99                                        (* (pointer, 0, charset != 0) *)
   | _ -> failwith "query"
 
+(* the tree a configuration text denotes: items  <name>.  (option, value code 4)  or  <name>( items )  (section);
+   "-" = no element *)
+let ptrees_s s =
+  let n = String.length s in
+  let rec items i =
+    if i >= n || s.[i] = ')' then ([], i) else begin
+      let nm = name_s (String.make 1 s.[i]) in
+      if s.[i + 1] = '.' then
+        let (r, j) = items (i + 2) in (PT (nm, nat_of_int 4, []) :: r, j)
+      else if s.[i + 1] = '(' then begin
+        let (k, j) = items (i + 2) in
+        if j >= n || s.[j] <> ')' then failwith "tree";
+        let (r, j2) = items (j + 1) in (PT (nm, nat_of_int 0, k) :: r, j2)
+      end else failwith "tree"
+    end in
+  if s = "-" then [] else
+  let (l, j) = items 0 in
+  if j <> n then failwith "tree"; l
+
 let rec parse_ops t = match t with
   | [] -> []
   | "new" :: n :: v :: r -> ONew (name_s n, nat_s v) :: parse_ops r
@@ -78,6 +97,20 @@ let rec parse_ops t = match t with
   | "next" :: x :: n :: r -> ONext (nat_s x, name_s n) :: parse_ops r
   | "end" :: r -> OEnd :: parse_ops r
   | t :: _ -> failwith ("bad op " ^ t)
+
+(* the extended language: "parse <root> <K|E> <text in hex> <tree>" = mpt_parse_node(root, text, default format);
+   K: the parser succeeds, E: it reports an error after having delivered the elements of <tree> *)
+let rec parse_hops t =
+  let rec upto acc t = match t with
+    | [] -> (List.rev acc, [])
+    | "parse" :: _ | "zparse" :: _ -> (List.rev acc, t)
+    | x :: r -> upto (x :: acc) r in
+  match t with
+  | [] -> []
+  | "parse" :: x :: k :: _ :: tr :: r ->
+    HParse (nat_s x, ptrees_s tr, (match k with "K" -> true | "E" -> false | _ -> failwith "parse K|E")) :: parse_hops r
+  | "zparse" :: x :: r -> HParseRefused (nat_s x) :: parse_hops r
+  | _ -> let (b, r) = upto [] t in List.map (fun o -> HBase o) (parse_ops b) @ parse_hops r
 
 let show_ptr p = match p with None -> "-" | Some i -> string_of_int (int_of_nat i)
 let show_out o = match o with
@@ -144,11 +177,11 @@ let () =
   List.iter (fun line ->
     match split_ws line with
     | id :: ops ->
-      let ops = parse_ops ops in
+      let ops = parse_hops ops in
       let mt = List.map (fun r -> match r with
           | None -> "F"
-          | Some (o, h) -> show_out o ^ "|" ^ show_m h) (mrun empty_heap ops) in
+          | Some (o, h) -> show_out o ^ "|" ^ show_m h) (hrun empty_heap ops) in
       Printf.printf "M %s %s\n" id (String.concat " " mt);
-      let st = List.map (fun (o, s) -> show_out o ^ "|" ^ show_s s) (srun empty_sstate ops) in
+      let st = List.map (fun (o, s) -> show_out o ^ "|" ^ show_s s) (hsrun empty_sstate ops) in
       Printf.printf "S %s %s\n" id (String.concat " " st)
     | _ -> ()) (read_lines ic)
